@@ -8,6 +8,7 @@ import Rtcp.Spec.Rules
 import Rtcp.Spec.Decode
 import Rtcp.Spec.Framing
 import Rtcp.Impl.Calls
+import Rtcp.Impl.FastWrite
 
 namespace Driver
 open Rtcp Rtcp.Impl
@@ -93,7 +94,8 @@ def parseChunkCall : Sexp → Option ChunkCall
 def evalChunk : Sexp → Option SdesChunkBuilder
   | .list (.atom "chunk" :: ssrc :: calls) => do
     let s ← ssrc.toNat?
-    pure ((SdesChunkBuilder.new (u32 s)).run (← calls.mapM parseChunkCall))
+    -- `Fast.chunkRun b cs = b.run cs` (Props.fast_chunkRun_eq): the adders append, `run` is quadratic
+    pure (Fast.chunkRun (SdesChunkBuilder.new (u32 s)) (← calls.mapM parseChunkCall))
   | _ => none
 
 def parseRpsiCall : Sexp → Option RpsiCall
@@ -256,7 +258,10 @@ partial def Cfg.toWriter : Cfg → Writer
   | .bye b => b.toWriter
   | .rr b => b.toWriter
   | .sr b => b.toWriter
-  | .sdes b => b.toWriter
+  | .sdes b =>
+    -- `Fast.sdesWriter b = b.toWriter` (Props.fast_sdesWriter_eq); the model's own writer threads the
+    -- whole buffer once per item, so it is kept for configurations of ordinary size only
+    if (b.chunks.map (·.items.length)).sum > 512 then Fast.sdesWriter b else b.toWriter
   | .unknown b => b.toWriter
   | .fb k f p s m => (fbBuilder k f p s m).toWriter
   | .pb inner =>
@@ -277,7 +282,7 @@ partial def Cfg.toWriter : Cfg → Writer
     let w := if count == 0 then b.toWriter else { b.toWriter with write := customWrite b (u8 count) }
     -- `(pad_style some0)`: the third-party writer answers `Some(padding)` even for padding 0
     if some0 then { w with getPadding := some b.padding } else w
-  | .chunk b => ⟨b.calcSize, b.writeUnchecked, none⟩
+  | .chunk b => if b.items.length > 512 then Fast.chunkWriter b else ⟨b.calcSize, b.writeUnchecked, none⟩
   | .item b => ⟨b.calcSize, b.writeUnchecked, none⟩
   | .fci f => f.toFci.w
 
@@ -500,6 +505,9 @@ def specParseLines (k : PKind) (d : Bytes) : Out :=
     else if d.length < 4 + padding.toNat then #[("spec.tok", "padding-overrun")]
     else
       let body := (d.take (d.length - padding.toNat)).drop 4
+      -- the reference tokeniser measures the remaining bytes at every item (quadratic): informational
+      -- line, left out for very long inputs
+      if d.length > 70000 then #[] else
       match Spec.refTok body with
       | some cs => #[("spec.tok", "accept:" ++ String.intercalate ";" (cs.map refChunkStr))]
       | none => #[("spec.tok", "reject")]
